@@ -318,14 +318,26 @@ func runReshaped(c *Ctx) {
 // agreeing on the size of each cell, so nothing of the earlier shape may survive in a per-table cache.
 func runRetyped(c *Ctx, prop string) {
 	r := c.Rng
-	for hi := 0; hi < c.N(10, 150); hi++ {
+	want, done := c.N(10, 150), 0
+	for hi := 0; hi < 20*want && done < want; hi++ {
 		cfg := baseCfg(r, r.Intn(len(baseCfgs)))
-		o := histOpts{units: 3 + r.Intn(5), maxCols: 4, maxRows: 2, rotations: hi%3 == 0, ignorables: false, sameColCount: true,
+		o := histOpts{units: 4 + r.Intn(5), maxCols: 4, maxRows: 2, rotations: hi%3 == 0, ignorables: false, sameColCount: true,
 			kindsOnly: []string{"txXid", "txCommit", "autoRows", "ddl"}}
 		h := genHistory(r, cfg, o)
 		if len(h.tables) < 2 {
 			continue
 		}
+		// only histories in which rows events of at least two different shapes occur (with at least one row each)
+		used := map[string]bool{}
+		for _, e := range h.events {
+			if e.kind == "rows" && len(e.rows.before)+len(e.rows.after) > 0 {
+				used[e.table.typeKeys()] = true
+			}
+		}
+		if len(used) < 2 {
+			continue
+		}
+		done++
 		for i := range h.tables {
 			h.tables[i].id, h.tables[i].db, h.tables[i].name = 4242, "shop", "orders"
 			for j := range h.tables[i].cols {
